@@ -87,6 +87,10 @@ def prepare(scenario, ws, r):
         open(path, "w").write("{ this is not json")
     elif scenario == "local-key-truncated":
         open(path, "w").write(text[: len(text) // 2])
+    elif scenario == "local-key-binary":
+        open(path, "wb").write(b"\xff\xfe\x00\x80 not text at all \xc3\x28" + bytes(range(128, 200)))     # unreadable as text (an I/O-level error, not a parse error)
+    elif scenario == "local-key-isdir":
+        os.makedirs(path)                                                                       # something that exists but cannot be read as a file
     elif scenario == "local-key-wrong-guid":
         k3 = dict(k, guid="00000000-1111-2222-3333-444444444444")
         open(path, "w").write(json.dumps(k3, indent=2))
@@ -102,6 +106,8 @@ def check_key_files(ws, viol, wit, preexisting_bad=()):
         if not name.endswith(".key"):
             continue
         if name in preexisting_bad:
+            continue
+        if os.path.isdir(os.path.join(KEY_DIR, name)):
             continue
         data = open(os.path.join(KEY_DIR, name), "rb").read()
         try:
@@ -294,6 +300,55 @@ def fault_trial(scratch, scenario, faults, r, res, imds):
     ws.close()
 
 
+def disable_enable_trial(scratch, variant, r, res):
+    """history without crash or fault: latch, the host reports the channel disabled for a while (it still regards the key as latched), then enabled
+    again (variant 'restart': the agent is restarted while disabled): the latched key stays in the local store and is used again without a
+    new key being requested"""
+    def viol(s_, w_):
+        res["violations"].append([s_, w_])
+    reset_dirs()
+    ws = wsmock.WsMock(key_dir=KEY_DIR, rng=r)
+    ws.version = "1.0"; ws.state_v1 = "Wireserver"
+    vdir = os.path.join(scratch, "standin")
+    agents = [realagent.RealAgent(scratch, tag="de-%s-%d" % (variant, res["evaluations"]), vdir=vdir, worker_threads=2)]
+
+    def wait(cond, t=10):
+        t0 = time.time()
+        while time.time() - t0 < t and not cond():
+            time.sleep(0.05)
+        return cond()
+    try:
+        if not wait(lambda: ws.latched is not None and any(k == "attest" and d.endswith(" ok") for _, k, d in ws.log)):
+            res.setdefault("inconclusive", []).append("disable/enable history: no initial latch"); return
+        g = ws.latched
+        acquires = ws.count("acquire")
+        n0 = ws.count("status")
+        ws.state_v1 = "Disabled"
+        wait(lambda: ws.count("status") >= n0 + 3)
+        if variant == "restart":
+            agents[-1].kill()
+            agents.append(realagent.RealAgent(scratch, tag="de-%s-r%d" % (variant, res["evaluations"]), vdir=vdir, worker_threads=2))
+            n1 = ws.count("status")
+            wait(lambda: ws.count("status") >= n1 + 2)
+        ws.state_v1 = "Wireserver"
+        n2 = ws.count("status")
+        wait(lambda: ws.count("status") >= n2 + 3)
+        res["evaluations"] += 1
+        wit = {"history": "latch, disabled x3%s, enabled x3" % (", restart" if variant == "restart" else ""), "host_log": [(k, d) for _, k, d in ws.log][-14:],
+               "dir": sorted(os.listdir(KEY_DIR)) if os.path.isdir(KEY_DIR) else None}
+        files = check_key_files(ws, viol, wit)
+        if files.get(g) is None or files[g].get("key") != ws.issued.get(g):
+            viol("host-latched-key-not-in-local-store", dict(wit, guid=g))
+        if ws.count("acquire") != acquires or ws.latched != g:
+            viol("new-key-requested-although-host-latched-key-was-stored", dict(wit, guid=g, latched_after=ws.latched))
+        res["counts"]["disable_enable_histories"] = res["counts"].get("disable_enable_histories", 0) + 1
+        res["nontrivial"].append("disable-enable-" + variant)
+    finally:
+        for a in agents:
+            a.kill()
+        ws.close()
+
+
 def worker(args, scratch):
     res = {"evaluations": 0, "nontrivial": [], "samples": [], "counts": {}, "violations": []}
     imds = mockhost.MockHost("169.254.169.254", 80, lambda req: {"status": 200, "body": b"{}"}, name="imds")
@@ -304,6 +359,8 @@ def worker(args, scratch):
         for scenario, faults in args.get("fault_trials", []):
             r = common.rng("c08f", scenario, str(faults))
             fault_trial(scratch, scenario, faults, r, res, imds)
+        for variant in args.get("disable_enable", []):
+            disable_enable_trial(scratch, variant, common.rng("c08de", variant), res)
     finally:
         imds.close()
     return res
@@ -388,6 +445,8 @@ def run(tier, rep):
             for i, p in enumerate(lies):
                 if tier == "thorough" or i % 3 == 0 or p[3] >= 30:
                     trials.append((sc, ["write", p[1], "lie", p[3]]))
+    # unreadable-local-key variants without a kill sweep: the latched key's file exists but cannot be read (binary garbage, a directory)
+    trials += [("local-key-binary", 0), ("local-key-isdir", 0)]
     rep.coverage.pop("zones", None)
     faults = []
     F = [("status", {"kind": "status", "code": 500}), ("status", {"kind": "body", "body": "{oops"}), ("status", {"kind": "reset"}),
@@ -404,7 +463,7 @@ def run(tier, rep):
             for g in F:
                 faults.append(("fresh", [f, g]))
     shards = 16
-    args = [{"trials": trials[i::shards], "fault_trials": faults[i::shards]} for i in range(shards)]
+    args = [{"trials": trials[i::shards], "fault_trials": faults[i::shards], "disable_enable": [["plain"], ["restart"]][i] if i < 2 else []} for i in range(shards)]
     for res in sandbox.run_many("vf.props.c08", "worker", args, workers=shards, timeout=3000):
         rep.merge_worker(res)
     killed_in_zone = sum(v for k, v in rep.coverage.items() if k.startswith("kill_phase:") and ("after-acquire" in k or "after-attest" in k))
